@@ -290,7 +290,8 @@ pub enum Event {
         random_bytes: [u8; 7],
         result: bool,
     },
-    /// ntru_gen: one candidate; verdict 0 = accepted, 1 = f not invertible, 2 = GS norm, 3 = solver
+    /// ntru_gen: one candidate; verdict 0 = accepted, 1 = f not invertible, 2 = GS norm, 3 = solver,
+    /// 4 = f or g outside the encodable range, 5 = F or G outside the encodable range
     NtruCandidate { verdict: u8, gamma: f64 },
 }
 
